@@ -303,6 +303,8 @@ Step(w, objs, al, ev) ==
       [] m = "bool" -> Observe(objs, al, RetV(<<IF n > 0 THEN 1 ELSE 0>>))
       [] m = "contains" -> Observe(objs, al, RetV(<<IF HasCol(o.cols, cs[1]) THEN 1 ELSE 0>>))
       [] m = "iter" -> Observe(objs, al, [NoRet EXCEPT !.t = o.rows])
+      [] m = "as_series" ->         \* pd.Series(arraylike, index=self.data.index)
+            Observe(objs, al, RetVW(LitCol("zz", n), o.index))
       [] m = "eq" ->                \* isinstance(other, self.__class__) and self.data.equals(other.data); Python tries the
                                     \* SUBCLASS's reflected __eq__ first, so GA == CNA is decided by CNA.__eq__ -> False
             LET same == o.cls = a.cls /\ o.cols = a.cols /\ o.rows = a.rows /\ o.index = a.index
@@ -455,6 +457,7 @@ Clauses(r) ==
        [] m = "by_chromosome" -> {"bychrom_partition"}
        [] m = "by_arm"        -> {"byarm_partition"}
        [] m = "coords"        -> {"coords_rows"}
+       [] m = "as_series"     -> {"as_series_index"}
        [] m = "labels"        -> {"labels_text"}
        [] m = "add"           -> {"add_rejects_non_instance", "add_combines", "add_in_place"}
        [] m = "concat"        -> {"concat_rows", "concat_keeps_meta"}
@@ -561,6 +564,9 @@ Holds(c, r) ==
             LET o == Recv(r)  cols == <<"chromosome", "start", "end">> \o cs IN
             (\A j \in Idx(cs) : HasCol(o.cols, cs[j])) =>
                 Ok(r) /\ ev.ret.t = [k \in Idx(o.rows) |-> [j \in Idx(cols) |-> Cell(o, k, cols[j])]]
+      [] c = "as_series_index" ->
+            (* as_series: "Coerce `arraylike` to a Series with this instance's index." *)
+            Ok(r) /\ ev.ret.w = Recv(r).index /\ ev.ret.v = LitCol("zz", N(Recv(r)))
       [] c = "labels_text" ->
             (* labels: "Get chromosomal coordinates as genomic range labels."; rangelabel: "A range specification  *)
             (* should look like chromosome:start-end, e.g. chr1:1234-5678, with 1-indexed integer coordinates."     *)
